@@ -2,7 +2,7 @@ SPECIFICATION Spec
 CONSTANTS K = 1 SendPuncture = TRUE PunctureFirst = TRUE FollowAll = FALSE MaxId = 40 QuietCalls = TRUE
           APlaces = {"pub", "nat"} CandPlaces = {"pub", "nat", "withA"}
           MaxContactsA = 2 MaxContactsB = 2
-          MinContacts = 1 MaxRebinds = 0 Clock0 = 0 Refresh = TRUE Ident16 = TRUE
+          MinContacts = 2 MaxRebinds = 0 Clock0 = 0 Refresh = TRUE Ident16 = TRUE
           Svcs = {"M"} Phased = FALSE V6N = 1 StyleAware = TRUE SvcWalkable = TRUE
 INVARIANT TypeOK
 INVARIANT Reach
